@@ -855,9 +855,16 @@ impl From<&ClusterState> for ClusterStateSnapshot {
     }
 }
 
+#[cfg(not(feature = "verif"))]
 #[cfg(not(test))]
 fn random_generator() -> impl Rng {
     rand::rng()
+}
+
+// Seedable shuffle for the verification harness (feature `verif` only).
+#[cfg(all(feature = "verif", not(test)))]
+fn random_generator() -> impl Rng {
+    crate::verif::shuffle_rng()
 }
 
 // We use a deterministic random generator in tests.
